@@ -493,6 +493,8 @@ func (g *Gen) doAlloc(st *State, a *ssa.Alloc) {
 		if isScalarKind(kindOf(at.Elem())) {
 			old, nw := g.setMem(st, at.Elem(), "", kindOf(at.Elem()))
 			g.emit("(assert " + eq(nw, sto(old, arr, g.zeroVal(et).S)) + ")")
+		} else if k := kindOf(at.Elem()); k == KSlice || k == KString {
+			g.zeroArr(st, at.Elem(), arr) // a new array of slices / strings is all nil / empty
 		}
 		g.vals[a] = &Val{K: KArrPtr, T: a.Type(), Arr: arr, N: at.Len()}
 	default:
